@@ -261,6 +261,22 @@ func genOpenDecode(g *gen) {
 	for i := 0; i < g.scale(300, 5000); i++ {
 		g.emit("open.dec", term.Hex(g.bytes(g.r.Intn(4078))))
 	}
+	// the RFC 9072 layout (Opt Parm Len 255, Non-Ext OP Type 255, two-octet lengths), which this code does not
+	// implement: whatever it answers, it must be the answer to the octets as RFC 4271 reads them — with capability
+	// lengths up to 255 inside parameters that such a layout would allow to exceed 255 octets
+	for _, capLen := range []int{0, 1, 200, 252, 253, 254, 255} {
+		for _, extra := range []int{0, 1, 40} {
+			capsBlock := append([]byte{70, uint8(capLen)}, g.bytes(capLen)...)
+			capsBlock = append(capsBlock, g.bytes(extra)...)
+			params := append([]byte{2, uint8(len(capsBlock) >> 8), uint8(len(capsBlock))}, capsBlock...)
+			for _, optLen := range []uint8{255, 254, uint8(len(params) + 3)} {
+				b := []byte{4, 0xfd, 0xe9, 0, 90, 10, 0, 0, 1, optLen, 255, uint8(len(params) >> 8), uint8(len(params))}
+				b = append(b, params...)
+				g.emit("open.dec", term.Hex(b))
+				g.emit("open.dec", term.Hex(b[:len(b)-1-g.r.Intn(3)]))
+			}
+		}
+	}
 }
 
 func genOpenValidate(g *gen) {
